@@ -154,9 +154,9 @@ def _dag_closure_expr(inl, e):
     return None
 
 
-def r2_invalidate(ctx):
-    ctx.rule("C01.R2", "State.__setitem__: every path store -> normal exit passes a loop storing None into every transitive child of the same key", 1)
-    f, cfg, inl, key, store = _setitem_facts(ctx, "C01.R2")
+def r2_invalidate(ctx, rid="C01.R2"):
+    ctx.rule(rid, "State.__setitem__: every path store -> normal exit passes a loop storing None into every transitive child of the same key", 1)
+    f, cfg, inl, key, store = _setitem_facts(ctx, rid)
     loops = []
     for n in cfg.nodes(lambda s: isinstance(s, ast.For)):
         st = cfg.stmt[n]
@@ -172,14 +172,14 @@ def r2_invalidate(ctx):
     good = [n for n, (attr, k) in loops if TRANSITIVE.get(attr) is True and attr == "sorted_children" and k == key]
     for n, (attr, k) in loops:
         if attr != "sorted_children" or k != key:
-            ctx.violation("C01.R2", f, cfg.stmt[n], f"reset loop ranges over self.dag.{attr}[{k}] - not the transitive children of `{key}`")
+            ctx.violation(rid, f, cfg.stmt[n], f"reset loop ranges over self.dag.{attr}[{k}] - not the transitive children of `{key}`")
     ok = bool(good) and cfg.all_paths_pass(store, good)
     if ok:
-        ctx.ok("C01.R2", f, cfg.stmt[store], "every path from the store to the exit passes the reset loop over self.dag.sorted_children[name]")
-        ctx.ok("C01.R2", f, cfg.stmt[good[0]], "loop stores None into self._values[child] for each transitive child")
+        ctx.ok(rid, f, cfg.stmt[store], "every path from the store to the exit passes the reset loop over self.dag.sorted_children[name]")
+        ctx.ok(rid, f, cfg.stmt[good[0]], "loop stores None into self._values[child] for each transitive child")
     else:
         w = cfg.path_avoiding(store, good)
-        ctx.violation("C01.R2", f, cfg.stmt[store],
+        ctx.violation(rid, f, cfg.stmt[store],
                       "a path from the store to the normal exit skips the invalidation of the transitive children: "
                       + " -> ".join(cfg.describe(x) for x in (w or [])[:6]))
 
